@@ -461,6 +461,7 @@ func (x *runner) runSeq(caseID string, pl *plan) (res seqResult) {
 		}()
 	}
 
+	bankSwitched := false // the bank module's transfer switch was moved away from its default in this history
 	for bi, ops := range pl.Blocks {
 		pre := preCtx(n)
 		before, err := bankOf(n, pre)
@@ -605,6 +606,26 @@ func (x *runner) runSeq(caseID string, pl *plan) (res seqResult) {
 				} else {
 					r.Count("toggle_rejected", 1)
 				}
+			case "bank-switch":
+				bp := banktypes.DefaultParams()
+				switch o.Route {
+				case "denom-off":
+					bp.SendEnabled = []*banktypes.SendEnabled{{Denom: o.Coins[0].Denom, Enabled: false}}
+				case "default-off":
+					bp.DefaultSendEnabled = false
+				}
+				if err, _ := core.Catch(func() error {
+					if err := bp.Validate(); err != nil {
+						return err
+					}
+					n.App.BankKeeper.SetParams(ctx, bp)
+					return nil
+				}); err != nil {
+					r.Count("bank_switch_refused", 1)
+					break
+				}
+				bankSwitched = o.Route != "all-on"
+				r.Count("bank_send_switch/"+o.Route, 1)
 			case "topup":
 				cs := rcCoins(o.Coins)
 				if err := fundPool(n, ctx, cs); err != nil {
@@ -667,6 +688,9 @@ func (x *runner) runSeq(caseID string, pl *plan) (res seqResult) {
 			}
 		}
 		last := bi == len(pl.Blocks)-1
+		if last && !pl.ViaGenesis && bankSwitched {
+			n.App.BankKeeper.SetParams(ctx, banktypes.DefaultParams())
+		}
 		if last && !pl.ViaGenesis {
 			// leave the re-used node with vesting disabled for the next history's set-up block
 			if ok, why := setParams(n, ctx, disabledDefault, "setparams", false); !ok {
